@@ -189,6 +189,8 @@ fn panic_bad(stage: &str, p: vhc::Panicked) -> (String, String) {
 }
 
 /// Runs the pipeline on `text` (the program file is <cwd>/main.dora, held in memory only).
+pub static PARSER_ONLY: std::sync::atomic::AtomicBool = std::sync::atomic::AtomicBool::new(false);
+
 pub fn run_pipeline(text: Arc<String>) -> CaseResult {
     let mut res = CaseResult::default();
     let t0 = cpu_ns();
@@ -199,15 +201,31 @@ pub fn run_pipeline(text: Arc<String>) -> CaseResult {
     set_stage(1);
     {
         let t = text.clone();
-        if let Err(p) = catch(move || {
+        match catch(move || {
             let (file, errors) = dora_parser::Parser::from_shared_string(t).parse();
             (file.root().green().text_length(), errors.len())
         }) {
-            res.bad.push(panic_bad("the parser", p));
-            res.cpu_ms = (cpu_ns() - t0) as f64 / 1e6;
-            set_stage(0);
-            return res;
+            Err(p) => {
+                res.bad.push(panic_bad("the parser", p));
+                res.cpu_ms = (cpu_ns() - t0) as f64 / 1e6;
+                set_stage(0);
+                return res;
+            }
+            Ok((_, nerr)) => {
+                if PARSER_ONLY.load(Ordering::SeqCst) {
+                    res.nerrors = nerr as u64;
+                    res.parse_clean = nerr == 0;
+                }
+            }
         }
+    }
+
+    if PARSER_ONLY.load(Ordering::SeqCst) {
+        // phase=parser: token-level mutants are evaluated by the parser alone (the semantic phases of the pinned tree do
+        // not reach a bounded set of panic sites for them, the parser does)
+        res.cpu_ms = (cpu_ns() - t0) as f64 / 1e6;
+        set_stage(0);
+        return res;
     }
 
     // stage 1: Sema::new + check_program, exactly as dora/src/driver/start.rs::compile_program
@@ -381,6 +399,7 @@ fn guarded(idx: u64, text: Arc<String>) -> CaseResult {
 fn run_front(args: &Args) {
     let corpus = fams::Bases::load(args.extra.as_deref(), args.get("bases").unwrap_or("all"));
     let fams = fams::select_families(args.get("families").unwrap_or("default"));
+    PARSER_ONLY.store(args.get("phase") == Some("parser"), Ordering::SeqCst);
     let cli_every: u64 = args.get("cli_every").map(|s| s.parse().unwrap()).unwrap_or(0);
     let clidir = args.get("clidir").map(PathBuf::from);
     let mut rep = Rep::new(args);
